@@ -82,6 +82,26 @@ def generate(rng, tier):
     for start in (16381, 16382, 16383):
         pk = [mk(rng, 100, "F", start), mk(rng, 100, "C", start + 1), mk(rng, 100, "L", start + 2)]
         yield genutil.gen_line(dsx, "-", ("1", "0", "1", "0", "0"), 0, [b"".join(pk)]), "wrap-around"
+    # several live generators of one definition over segmented streams of the same APIDs, advanced alternately:
+    # each must reassemble its own stream only
+    for _ in range(40 if tier == "quick" else 4000):
+        k = rng.randrange(2, 4)
+        srcs = []
+        for _ in range(k):
+            spec = [(rng.choice([100, 200]), rng.choice("FCLLU"), "seq" if rng.random() < 0.9 else "gap")
+                    for _ in range(rng.randrange(1, 7))]
+            srcs.append(b"".join(build_history(rng, spec)))
+        sched = [rng.randrange(k) for _ in range(rng.randrange(3, 25))]
+        sh = rng.choice(["0", "0", "1"])
+        yield (f"gensched {dsx} - {sx(['1', '0', '1', sh, '0'])} 0 {sx([[hx(b)] for b in srcs])} "
+               f"{sx([str(i) for i in sched])}"), "interleaved-generators"
+    # a later generator is created (and started) while an earlier one has a group open
+    for _ in range(10 if tier == "quick" else 500):
+        a = b"".join(build_history(rng, [(100, "F", "seq"), (100, "C", "seq"), (100, "L", "seq")]))
+        b = b"".join(build_history(rng, [(100, rng.choice("LCU"), "seq"), (100, "F", "seq"), (100, "L", "seq")]))
+        sched = [0, 1, 0, 1, 0, 1, 1, 0][:rng.randrange(2, 9)]
+        yield (f"gensched {dsx} - {sx(['1', '0', '1', '0', '0'])} 0 {sx([[hx(a)], [hx(b)]])} "
+               f"{sx([str(i) for i in sched])}"), "interleaved-generators"
     # combining off: every packet alone
     for _ in range(20):
         spec = [(rng.choice([100, 200]), rng.choice("FCLU"), "seq") for _ in range(rng.randrange(1, 6))]
@@ -90,14 +110,28 @@ def generate(rng, tier):
 
 
 def impl(line):
+    if line.startswith("gensched"):
+        from harness.props import c11
+        return c11.impl(line)
     return genutil.run_gen(line)
 
 
 def oracle(line, out):
-    """15-line reference automaton over the raw history."""
+    """15-line reference automaton over the raw history (for `gensched`: over each generator's own history)."""
     t = parse_sx(line)
-    pb, ho, cb, sh, yu = t[3]
-    data = b"".join(unhx(c) for c in t[5])
+    if t[0] == "gensched":
+        if not out.startswith("sched "):
+            return False if out.startswith("err") else None
+        parts = out[len("sched "):].split(" | ")
+        if len(parts) != len(t[5]):
+            return None
+        res = [oracle_one(t[3], b"".join(unhx(c) for c in src), part.strip()) for src, part in zip(t[5], parts)]
+        return False if False in res else (None if None in res else True)
+    return oracle_one(t[3], b"".join(unhx(c) for c in t[5]), out)
+
+
+def oracle_one(opts, data, out):
+    pb, ho, cb, sh, yu = opts
     k = int(sh)
     pk, i = [], 0
     while i + 6 <= len(data):
